@@ -11,7 +11,20 @@ import tempfile
 import zlib
 
 from fv import canon, core, explore, harness, observe
-from fv.corpus import CORPUS
+from fv.corpus import CORPUS as _CORPUS
+
+# C07-local programs: one entity of every kind of circuit-condition support (with / without a circuit_enabled flag)
+CORPUS = dict(_CORPUS, **{
+    "enable-kinds": ('Signal lv = ("signal-L", 12);\nSignal x = ("signal-X", 2);\nSignal y = ("signal-Y", 5);\n'
+                     'Entity p = place("pump", 0, -8);\np.enable = lv < 20;\n'
+                     'Entity o = place("offshore-pump", 4, -8);\no.enable = lv >= 3;\n'
+                     'Entity s = place("power-switch", 8, -8);\ns.enable = lv != 7;\n'
+                     'Entity l = place("small-lamp", 12, -8);\nl.enable = lv == 12;\n'
+                     'Entity i = place("inserter", 14, -8);\ni.enable = lv <= 12;\n'
+                     'Bundle b = {x, y};\nEntity q = place("pump", 18, -8);\nq.enable = all(b) > 1;\n'
+                     'Entity r = place("small-lamp", 22, -8);\nr.enable = any(b) > 4;\n'
+                     'Signal z = x + y;\nEntity t = place("pump", 26, -8);\nt.enable = z;\n'),
+})
 from fv.sim import Circuit
 
 EXPECT = {   # settled named outputs for the values written in the corpus sources
@@ -41,7 +54,7 @@ def behaviour(bp):
             if len(out[name]) == 1:
                 out[name] = list(out[name].values())[0]
     return out
-QUICK_PROGS = ["arith", "cmp-same-type", "cell", "latch-sr", "bundle-member-scalar", "fan-proj"]
+QUICK_PROGS = ["arith", "cmp-same-type", "cell", "latch-sr", "bundle-member-scalar", "fan-proj", "enable-kinds"]
 
 
 def decode(text, as_json):
@@ -111,6 +124,41 @@ def plan_wire_problems(plan, bp_obj, decoded):
     for a, ca, b, cb in decoded.get("wires", []) or []:
         if ca < 5 and cb < 5 and pl._find((a, ca)) != pl._find((b, cb)):
             probs.append(("emitted wire that joins two planned networks", names.get(a), ca, names.get(b), cb))
+    return probs[:6]
+
+
+CMP = {"==": "=", "!=": "\u2260", ">=": "\u2265", "<=": "\u2264"}
+
+
+def plan_condition_problems(plan, bp_obj, decoded):
+    """every `enable` condition the LayoutPlan carries for an entity (inlined comparison, inlined all()/any(), or a
+    signal) must be present in the decoded entity's circuit condition: signal, comparator and constant."""
+    idmap = {getattr(e, "id", None): i + 1 for i, e in enumerate(bp_obj.entities)}
+    ents = {e["entity_number"]: e for e in decoded["entities"]}
+    probs = []
+    for pid_, pl in plan.entity_placements.items():
+        en = (pl.properties.get("property_writes") or {}).get("enable")
+        if not en:
+            continue
+        e = ents.get(idmap.get(pid_))
+        if e is None:
+            probs.append(("entity with an enable condition is not in the emitted text", pid_))
+            continue
+        cc = (e.get("control_behavior") or {}).get("circuit_condition") or {}
+        t = en.get("type")
+        if t == "inline_comparison":
+            cd = en.get("comparison_data") or {}
+            want = (cd.get("left_signal"), cd.get("comparator"), cd.get("right_constant"))
+        elif t == "inline_bundle_condition":
+            want = (en.get("signal"), en.get("operator"), en.get("constant"))
+        else:
+            want = (None, ">", 0)
+        got = ((cc.get("first_signal") or {}).get("name"), cc.get("comparator", "<"), cc.get("constant", 0))
+        if not cc:
+            probs.append(("planned enable condition missing from the emitted entity", e["name"], str(want)))
+        elif (want[0] is not None and isinstance(want[0], str) and got[0] != want[0]) or \
+                CMP.get(got[1], got[1]) != CMP.get(want[1], want[1]) or (want[2] or 0) != got[2]:
+            probs.append(("emitted circuit condition differs from the planned one", e["name"], str(got), str(want)))
     return probs[:6]
 
 
@@ -214,6 +262,9 @@ class C07(core.Check):
                     wp = plan_wire_problems(plan_cache[key][0], plan_cache[key][1], bp)
                     if wp:
                         bad.append((tag, ("wires differ from the layout plan", wp)))
+                    pc = plan_condition_problems(plan_cache[key][0], plan_cache[key][1], bp)
+                    if pc:
+                        bad.append((tag, ("entity conditions differ from the layout plan", pc)))
                 seen_forms.setdefault(key, set()).add(d)
                 # executing the decoded text gives the behaviour of the planned circuit: every anchor reads the same
                 beh = behaviour(bp)
